@@ -51,6 +51,23 @@ def run(tier, wd):
             # a quarter of the classes with one or two options backed by the environment (the same for every member)
             env = sorted(rnd.sample(KEYS, rnd.choice([1, 2]))) if rnd.random() < 0.25 else []
             groups.append({"rel": "respell", "members": [dict({"si": si, "env": env, "argv": l}, **({"rawbyte": True} if raw else {})) for l in lines]})
+    # item sequences the reference REJECTS, around an option group with an environment-backed member that is absent from the line: a
+    # folded token of which the group consumes only a part must not look different to the branches tried afterwards
+    A_, B_, O_, E_, X_, Y_ = g.Opt("-a"), g.Opt("-b"), g.Opt("-o"), g.Opt("-e"), g.Arg("X"), g.Arg("Y")
+    for e_, seqs in [(g.Seq(g.Optional(X_), g.Optional(g.Grp(["-a", "-b"])), Y_, g.Optional(O_)),
+                      [[G.pos("x"), G.occ("-b"), G.occ("-o", "v")], [G.pos("x"), G.pos("y"), G.occ("-b"), G.occ("-o", "v")], [G.occ("-b"), G.occ("-o", "v"), G.pos("x")]]),
+                     (g.Seq(g.Optional(X_), g.Optional(g.Grp(["-a", "-b", "-e"])), Y_, g.Optional(g.Grp(["-b", "-o"]))),
+                      [[G.pos("x"), G.occ("-b"), G.occ("-b"), G.occ("-o", "v")], [G.pos("x"), G.occ("-e", "u"), G.occ("-b"), G.occ("-o", "v")]]),
+                     (g.Alt(g.Seq(X_, g.Optional(g.Grp(["-a", "-b"])), Y_), g.Seq(Y_, g.Optional(g.Grp(["-b", "-o"])))),
+                      [[G.pos("x"), G.occ("-b"), G.occ("-o", "v")], [G.pos("x"), G.occ("-b"), G.occ("-b")], [G.pos("x"), G.occ("-b"), G.occ("-o", "v"), G.pos("y")]])]:
+        st = g.render(p, e_)
+        if st in [x["str"] for x in specs]:
+            continue
+        specs.append({"ast": e_, "str": st})
+        for items in seqs:
+            lines = G.spellings(p, items, cap=cap, rnd=rnd)
+            for env in (["-a"], ["-a", "-e"], []):
+                groups.append({"rel": "respell", "members": [{"si": len(specs) - 1, "env": env, "argv": l} for l in lines]})
     triples = gc.run_groups(rep, wd, binpath, [p], specs, groups, "respell")
     gc.finish_groups(rep, [p], specs, triples,
                      "a group = one --free spec x one item sequence (a random sentence of the spec or a one-item perturbation of one) "
